@@ -752,9 +752,34 @@ _NP_FUNCS = dict(
     swapaxes=lambda a, i, j: _swapaxes(a, i, j),
     repeat=lambda a, repeats, axis=None: _repeat(a, repeats, axis),
     take=lambda a, indices, axis=None, **k: _take(a, indices, axis),
+    sliding_window_view=lambda x, window_shape, axis=None, **k: _sliding_window_view(x, window_shape, axis),
     cumsum=lambda a, axis=None, dtype=None, out=None: a.accumulate(axis, "add"),
     sum=lambda a, axis=None, dtype=None, out=None, keepdims=False, **k: a.reduce_axis(axis, "add", keepdims),
 )
+
+
+def _sliding_window_view(x, window_shape, axis=None):
+    """np.lib.stride_tricks.sliding_window_view: out[..., i, ..., w] = x[..., i + w, ...]; one new trailing axis per window"""
+    ws = tuple(window_shape) if isinstance(window_shape, (tuple, list)) else (window_shape,)
+    if axis is None:
+        axes = tuple(range(x.ndim))
+    else:
+        axes = tuple(axis) if isinstance(axis, (tuple, list)) else (axis,)
+    axes = tuple(int(a) % x.ndim for a in axes)
+    if len(ws) != len(axes):
+        raise ValueError("window_shape and axis must have the same length")
+    shape = list(x.shape)
+    for a, w_ in zip(axes, ws):
+        shape[a] = shape[a] - w_ + 1
+    nd = x.ndim
+
+    def at(idx, axes=axes, x=x, nd=nd):
+        pos = list(idx[:nd])
+        for k, a in enumerate(axes):
+            pos[a] = pos[a] + idx[nd + k]
+        return x._at(tuple(pos))
+
+    return x._derive(tuple(shape) + ws, at)
 
 
 def _take(a, indices, axis):
@@ -852,12 +877,45 @@ def same_array(E, a, b, label="values", skolem="p"):
         p = E.int(f"{skolem}{j}")
         E.assume(AND(p >= 0, p < d))
         idx.append(p)
+    # instances of the defining equation of a prefix function (pfx(k+1) == pfx(k) + src(k)) that an array's builder asks for:
+    # a conservative extension, so assuming them loses nothing
+    lem = []
+    for arr in (a, b):
+        f = getattr(arr, "lemmas", None)
+        if f is not None:
+            lem.extend(f([_z(p) for p in idx]))
     if E.symbolic:
+        for c in lem:
+            E.assume(_wrapb(c))
         ta, tb = a.at(idx), b.at(idx)
         ok = E.ensure(f"{label}-elements", _wrapb(ta == tb)) and ok
     else:
-        ok = E.ensure(f"{label}-elements", valid(a.at(idx) == b.at(idx))) and ok
+        eq = a.at(idx) == b.at(idx)
+        ok = E.ensure(f"{label}-elements", valid(z3.Implies(z3.And(*lem), eq) if lem else eq)) and ok
     return ok
+
+
+def prefix_lemmas(x, axis, idx, count, op="add"):
+    """defining-equation instances of the prefix function of the source `x` views, along its axis `axis`, for the
+    `count` positions starting at idx[axis]"""
+    st = x.struct
+    if st is None or st[0] != "aff":
+        return []
+    leafobj, coords = st[1], st[2]
+    L = next((k for k, c in enumerate(coords) if c[0] == "lin" and c[3] == axis), None)
+    if L is None:
+        return []
+    S = leafobj.prefix(L, op)
+    pos = [(_z(c[1]) if c[0] == "fix" else _z(c[1]) + c[2] * idx[c[3]]) for c in coords]
+    stride = coords[L][2]
+    out = []
+    for k in range(count):
+        q = list(pos)
+        q[L] = pos[L] + stride * k
+        q1 = list(q)
+        q1[L] = q[L] + 1
+        out.append(S(*q1) == S(*q) + leafobj.fn(*q))
+    return out
 
 
 def valid(formula):
